@@ -31,6 +31,9 @@ mod ticket;
 mod work;
 mod downloader;
 
+#[cfg(ruler_verif)]
+mod verif { include!(concat!(env!("RULER_VERIF_DIR"), "/harness.rs")); }
+
 #[derive(Parser)]
 struct BuildConfig
 {
